@@ -6,6 +6,7 @@ package consul
 import (
 	"context"
 	"fmt"
+	"time"
 
 	"github.com/hashicorp/go-hclog"
 	"github.com/hashicorp/go-metrics"
@@ -147,4 +148,42 @@ func VerifRunReplicator(ctx context.Context, s *Server, what string) error {
 		return r.Run(ctx)
 	}
 	return fmt.Errorf("unknown replicator %q", what)
+}
+
+// VerifServeReads prepares the shell for running real read endpoints: the token resolver of a
+// server with ACLs disabled, and a shutdown channel that releases parked blocking queries.
+func VerifServeReads(s *Server) error {
+	if s.ACLResolver != nil {
+		return nil
+	}
+	settings := ACLResolverSettings{ACLsEnabled: false, Datacenter: s.config.Datacenter, NodeName: s.config.NodeName,
+		ACLPolicyTTL: 30 * time.Second, ACLTokenTTL: 30 * time.Second, ACLRoleTTL: 30 * time.Second, ACLDownPolicy: "extend-cache", ACLDefaultPolicy: "allow"}
+	s.aclConfig = newACLConfig(serverPartitionInfo(s), s.logger)
+	r, err := NewACLResolver(&ACLResolverConfig{Config: settings, Backend: &serverACLResolverBackend{Server: s},
+		CacheConfig: serverACLCacheConfig, Logger: s.logger, ACLConfig: s.aclConfig, Tokens: s.tokens})
+	if err != nil {
+		return err
+	}
+	s.ACLResolver = r
+	if s.shutdownCh == nil {
+		s.shutdownCh = make(chan struct{})
+	}
+	return nil
+}
+
+// VerifStopReads releases the blocking queries parked on the shell.
+func VerifStopReads(s *Server) {
+	if s.shutdownCh != nil {
+		select {
+		case <-s.shutdownCh:
+		default:
+			close(s.shutdownCh)
+		}
+	}
+}
+
+// VerifKVSGet runs the real KVS.Get endpoint (blocking when MinQueryIndex is set).
+func VerifKVSGet(s *Server, args *structs.KeyRequest, reply *structs.IndexedDirEntries) error {
+	k := &KVS{srv: s, logger: s.logger}
+	return k.Get(args, reply)
 }
